@@ -629,7 +629,7 @@ def run(ctx):
             precomp_variant(ctx)
         if not only or 'pip' in only or 'anypos' in only:
             pippenger(ctx)
-    except Inconclusive as e_:
+    except Exception as e_:          # whatever stops the symbolic part, the native differential below still runs
         ctx.inconclusive('encoder: %s' % e_)
     if not only or 'native' in only:
         native_differential(ctx)
